@@ -258,5 +258,5 @@ def check(model, tier):
     run.assume("names supplied explicitly by the caller (name=...) are the caller's responsibility")
     from ..rules.foundation import run_foundation
 
-    run_foundation(ctx, "19", only=("F01", "F06", "F09", "F12"))
+    run_foundation(ctx, "19", only=("F01", "F06", "F09", "F12", "F23"))
     return run
